@@ -78,12 +78,12 @@ Qed.
 Lemma ft_fold_nodup l : forall acc,
   nodup_keys l = true ->
   (forall kv, In kv l -> existsb (beq_bytes (fst kv)) (map fst acc) = false) ->
-  fold_left ft_insert l acc = acc ++ l.
+  fold_left (ft_insert false) l acc = acc ++ l.
 Proof.
   induction l as [|kv l IH]; intros acc Hnd Hdis; cbn [fold_left].
   - rewrite app_nil_r. reflexivity.
   - cbn [nodup_keys] in Hnd. apply andb_true_iff in Hnd as [Hk Hnd]. apply negb_true_iff in Hk.
-    unfold ft_insert at 2. rewrite ft_remove_absent by (apply Hdis; left; reflexivity).
+    unfold ft_insert at 2. cbn iota. rewrite ft_remove_absent by (apply Hdis; left; reflexivity).
     rewrite IH; [rewrite <- app_assoc; reflexivity|exact Hnd|].
     intros kv' Hin. rewrite map_app, existsb_app. cbn [map existsb]. rewrite orb_false_r.
     pose proof (Hdis kv' (or_intror Hin)) as Hd. unfold path in *. rewrite Hd. cbn [orb].
@@ -94,28 +94,78 @@ Proof.
     congruence.
 Qed.
 
-Lemma ft_of_list_nodup l : nodup_keys l = true -> ft_of_list l = l.
+Lemma ft_of_list_nodup l : nodup_keys l = true -> ft_of_list false l = l.
 Proof.
   intros H. unfold ft_of_list. rewrite ft_fold_nodup; [reflexivity|exact H|].
   intros kv _. reflexivity.
 Qed.
 
+(* the repaired map (entries with the same key merged) answers every "is type t silenced for a name matching the key"
+   question as the list of rules itself does *)
+Section Merge.
+  Variable q : path -> bool.
+  Variable t : N.
+  Let P (kv : path * list N) : bool := q (fst kv) && mem t (snd kv).
+
+  Lemma ft_add_exists k v m : existsb P (ft_add k v m) = existsb P m || (q k && mem t v).
+  Proof.
+    induction m as [|[k' v'] m IH]; cbn [ft_add existsb].
+    - unfold P. cbn [fst snd]. rewrite orb_false_r. reflexivity.
+    - destruct (beq_bytes k k') eqn:E; cbn [existsb].
+      + apply beq_bytes_eq in E. subst k'. unfold P at 1 3. cbn [fst snd]. rewrite mem_app.
+        generalize (existsb P m). intros a. generalize (q k). intros b. generalize (mem t v'). intros c.
+        generalize (mem t v). intros e. btauto.
+      + rewrite IH. rewrite orb_assoc. reflexivity.
+  Qed.
+
+  Lemma ft_fold_merge_exists l : forall acc,
+    existsb P (fold_left (ft_insert true) l acc) = existsb P acc || existsb P l.
+  Proof.
+    induction l as [|[k v] l IH]; intros acc; cbn [fold_left existsb].
+    - rewrite orb_false_r. reflexivity.
+    - rewrite IH. unfold ft_insert. cbn [fst snd]. rewrite ft_add_exists. unfold P at 4. cbn [fst snd].
+      rewrite orb_assoc. reflexivity.
+  Qed.
+
+  Lemma ft_of_list_exists merge l :
+    merge || nodup_keys l = true -> existsb P (ft_of_list merge l) = existsb P l.
+  Proof.
+    destruct merge; cbn [orb]; intros H.
+    - unfold ft_of_list. rewrite ft_fold_merge_exists. reflexivity.
+    - rewrite (ft_of_list_nodup _ H). reflexivity.
+  Qed.
+End Merge.
+
 (* ---------- the choke point against the intent ---------- *)
 
+Lemma cross_in_gate fx : gate_covers fx = true -> forall t, mem t cross_types = true -> mem t (fx_gate fx) = true.
+Proof.
+  unfold gate_covers. intros H. rewrite forallb_forall in H. intros t Ht. apply H. apply mem_in. exact Ht.
+Qed.
+
+Lemma existsb_negb_mem t l ign : mem t l = true -> mem t ign = false -> existsb (fun x => negb (mem x ign)) l = true.
+Proof.
+  intros Hin Hn. apply existsb_exists. exists t. split; [apply mem_in; exact Hin|rewrite Hn; reflexivity].
+Qed.
+
+Lemma mem_client_on flags t : mem t (client_on_types flags) = negb (client_off flags t) && mem t types_all.
+Proof. unfold client_on_types. apply mem_filter. Qed.
+
 Section Law.
-  Variable fixed : bool.
+  Variable fx : fixes.
   Variable re_ok : path -> bool.
   Variable re_match : path -> path -> bool.
   Notation pm := (pat_match re_ok re_match).
   Notation is_ign := (is_ignore_error_file re_ok re_match).
-  Notation vis := (visible re_ok re_match).
+  Notation vis := (visible fx re_ok re_match).
   Notation handled := (is_handled re_ok re_match).
   Notation sexcl := (spec_excluded re_ok re_match).
   Notation shandled := (spec_handled re_ok re_match).
 
-  (* client mode: nothing json-only has ever been set *)
+  (* client mode: nothing json-only has ever been set (and before the repair of the dead switches nothing is
+     white-listed either) *)
   Definition cinv (g : gconf) : Prop :=
-    g_json g = false /\ g_file_types g = [] /\ g_open_types g = [] /\ g_has_entry g = false.
+    g_json g = false /\ g_file_types g = [] /\ (fx_dead fx = false -> g_open_types g = []) /\ g_has_entry g = false.
 
   Lemma cinv_default : cinv g_default.
   Proof. repeat split. Qed.
@@ -130,7 +180,7 @@ Section Law.
   Definition hf_fields (g0 g : gconf) (c : client_cfg) (m : bool) : Prop :=
     g_json g = false /\ g_show g = m
     /\ g_ignore_types g = (if m then filter (client_off (c_flags c)) types_all else g_ignore_types g0 ++ types_all)
-    /\ g_open_types g = g_open_types g0
+    /\ g_open_types g = (if m && fx_dead fx then client_on_types (c_flags c) else g_open_types g0)
     /\ g_handle_folder g = filter (fun p => negb (has_lua_suffix p)) (c_ignore_handle c)
     /\ g_handle_file g = filter has_lua_suffix (c_ignore_handle c)
     /\ g_err_folder g = filter (fun p => negb (has_lua_suffix p)) (c_ignore_err c) ++ [server_meta]
@@ -139,28 +189,29 @@ Section Law.
     /\ g_has_entry g = g_has_entry g0.
 
   Lemma handle_flags_inv g0 c g :
-    client_wf c = true -> handle_flags fixed re_ok g0 c = Ok g ->
+    client_wf c = true -> handle_flags fx re_ok g0 c = Ok g ->
     exists m fl, c_flags c = m :: fl /\ hf_fields g0 g c m.
   Proof.
     intros Hwf H. destruct (client_wf_cons c Hwf) as (m & fl & Hf).
     exists m, fl. split; [exact Hf|].
-    unfold handle_flags in H. destruct (compile_all fixed re_ok (c_ignore_err c)); [|discriminate].
+    unfold handle_flags in H. destruct (compile_all fx re_ok (c_ignore_err c)); [|discriminate].
     rewrite Hf in H.
     destruct m; apply Ok_inj in H; subst g; unfold hf_fields;
       cbn [g_json g_show g_ignore_types g_open_types g_handle_folder g_handle_file g_err_folder g_err_file
-           g_file_types g_has_entry]; rewrite ?Hf; repeat split.
+           g_file_types g_has_entry andb]; rewrite ?Hf; repeat split.
   Qed.
 
   Lemma handle_flags_cinv g0 c g :
-    client_wf c = true -> cinv g0 -> handle_flags fixed re_ok g0 c = Ok g -> cinv g.
+    client_wf c = true -> cinv g0 -> handle_flags fx re_ok g0 c = Ok g -> cinv g.
   Proof.
     intros Hwf (Hj & Hft & Ho & He) H.
     destruct (handle_flags_inv g0 c g Hwf H) as (m & fl & Hf & Hj' & _ & _ & Ho' & _ & _ & _ & _ & Hft' & He').
-    unfold cinv. rewrite Hj', Hft', Ho', He'. auto.
+    unfold cinv. rewrite Hj', Hft', He'. repeat split; try assumption.
+    intros Hd. rewrite Ho', Hd, andb_false_r. exact (Ho Hd).
   Qed.
 
   Lemma client_choke g0 c g :
-    client_wf c = true -> g_file_types g0 = [] -> handle_flags fixed re_ok g0 c = Ok g ->
+    client_wf c = true -> g_file_types g0 = [] -> handle_flags fx re_ok g0 c = Ok g ->
     forall f t, (1 <=? t) && (t <? 30) = true ->
       is_ign g f t = excluded_at re_ok re_match (intent_of_client c) f t.
   Proof.
@@ -181,26 +232,79 @@ Section Law.
 
   Lemma visible_unfold g root d :
     vis g root d =
-      negb (is_ign g (abs_path root (d_file d)) (d_type d)) && gate_ok g d && prereq_ok re_ok re_match g root d && open_ok g d.
+      negb (is_ign g (abs_path root (d_file d)) (d_type d)) && gate_ok fx g d && prereq_ok fx re_ok re_match g root d && open_ok g d.
   Proof.
     unfold visible, gate_ok, prereq_ok, open_ok.
     generalize (is_ign g (abs_path root (d_file d)) (d_type d)). intros a.
-    generalize (pass_runs g (produced_in (d_type d))). intros b.
-    generalize (forallb (fun p : N => negb (mem p (g_ignore_types g))) (global_prereq (d_type d))). intros c.
+    generalize (pass_runs fx g (produced_in (d_type d))). intros b.
+    generalize (forallb (fun p : N => negb (mem p (g_ignore_types g))) (prereq_types fx (d_type d))). intros c.
     generalize (negb (open_required (d_type d)) || mem (d_type d) (g_open_types g)). intros e.
-    destruct (d_ref d) as [r|].
-    - generalize (negb (is_ign g (abs_path root r) check_error_no_define)). intros h. btauto.
+    destruct (fx_coupled fx); cbn [orb].
     - btauto.
+    - destruct (d_ref d) as [r|].
+      + generalize (negb (is_ign g (abs_path root r) check_error_no_define)). intros h. btauto.
+      + btauto.
+  Qed.
+
+  (* a diagnostic that passes the choke point: the master switch is on and its type is not globally ignored *)
+  Lemma not_ignored_live g f t : is_ign g f t = false -> g_show g = true /\ mem t (g_ignore_types g) = false.
+  Proof.
+    unfold is_ignore_error_file. intros H.
+    repeat (apply orb_false_iff in H; destruct H as [H ?]).
+    apply negb_false_iff in H. auto.
+  Qed.
+
+  (* repaired gate: a type the cross-file passes emit keeps them running as long as it is switched on *)
+  Lemma gate_ok_fixed g d :
+    gate_covers fx = true -> g_show g = true -> mem (d_type d) (g_ignore_types g) = false -> gate_ok fx g d = true.
+  Proof.
+    intros Hfx Hs Hn. unfold gate_ok, produced_in.
+    destruct (mem (d_type d) cross_types) eqn:Hc; [|destruct (mem (d_type d) [18; 29]); reflexivity].
+    cbn [pass_runs]. unfold cross_runs, special_check, gate_types. rewrite Hs. cbn [andb].
+    rewrite (existsb_negb_mem (d_type d)); [apply orb_true_r|apply (cross_in_gate fx Hfx); exact Hc|exact Hn].
+  Qed.
+
+  (* repaired checks: no other type's switch, no other file's rule *)
+  Lemma prereq_ok_fixed g root d : fx_coupled fx = true -> prereq_ok fx re_ok re_match g root d = true.
+  Proof. intros Hfx. unfold prereq_ok, prereq_types. rewrite Hfx. reflexivity. Qed.
+
+  Lemma visible_fixed g root d :
+    gate_covers fx = true -> fx_coupled fx = true ->
+    vis g root d = negb (is_ign g (abs_path root (d_file d)) (d_type d)) && open_ok g d.
+  Proof.
+    intros Hg Hc. rewrite visible_unfold. rewrite (prereq_ok_fixed g root d Hc), andb_true_r.
+    destruct (is_ign g (abs_path root (d_file d)) (d_type d)) eqn:Hi; cbn [negb andb]; [reflexivity|].
+    destruct (not_ignored_live _ _ _ Hi) as [Hs Hn]. rewrite (gate_ok_fixed g d Hg Hs Hn). reflexivity.
   Qed.
 
   (* the final configuration state does what the intent says, up to the three extra conditions *)
   Definition realises (g : gconf) (i : intent) : Prop :=
     (forall root d, type_ok d = true ->
-       vis g root d = negb (sexcl i root d) && gate_ok g d && prereq_ok re_ok re_match g root d && open_ok g d)
+       vis g root d = negb (sexcl i root d) && gate_ok fx g d && prereq_ok fx re_ok re_match g root d && open_ok g d)
     /\ (forall rel, handled g rel = shandled i rel).
 
+  (* ... and the white list admits whatever the intent does not exclude *)
+  Definition opens (g : gconf) (i : intent) : Prop :=
+    forall root d, type_ok d = true -> sexcl i root d = false -> open_ok g d = true.
+
+  (* ... and lets through the choke point whatever the intent does not exclude *)
+  Definition passes (g : gconf) (i : intent) : Prop :=
+    forall root d, type_ok d = true -> sexcl i root d = false -> is_ign g (abs_path root (d_file d)) (d_type d) = false.
+
+  (* with the repairs of the analysis side (gate, coupled checks): the state does EXACTLY what the intent says *)
+  Lemma realises_exact g i root d :
+    gate_covers fx = true -> fx_coupled fx = true -> realises g i -> passes g i -> opens g i -> type_ok d = true ->
+    vis g root d = negb (sexcl i root d).
+  Proof.
+    intros Hg Hc (Hv & _) Hp Ho Hty.
+    destruct (sexcl i root d) eqn:He.
+    - rewrite (Hv root d Hty), He. reflexivity.
+    - rewrite visible_fixed by assumption.
+      rewrite (Hp root d Hty He), (Ho root d Hty He). reflexivity.
+  Qed.
+
   Lemma realises_client g0 c g :
-    client_wf c = true -> cinv g0 -> handle_flags fixed re_ok g0 c = Ok g -> realises g (intent_of_client c).
+    client_wf c = true -> cinv g0 -> handle_flags fx re_ok g0 c = Ok g -> realises g (intent_of_client c).
   Proof.
     intros Hwf (_ & Hft0 & _ & _) H. split.
     - intros root d Hty. rewrite visible_unfold. unfold spec_excluded.
@@ -211,28 +315,49 @@ Section Law.
       rewrite Hhf, Hhl. reflexivity.
   Qed.
 
+  Lemma passes_client g0 c g :
+    client_wf c = true -> cinv g0 -> handle_flags fx re_ok g0 c = Ok g -> passes g (intent_of_client c).
+  Proof.
+    intros Hwf (_ & Hft0 & _ & _) H root d Hty He. unfold spec_excluded in He.
+    rewrite (client_choke g0 c g Hwf Hft0 H) by exact Hty. exact He.
+  Qed.
+
+  (* repaired handleNotJSONCheckFlag: a switch that is on opens its type *)
+  Lemma opens_client g0 c g :
+    fx_dead fx = true -> client_wf c = true -> handle_flags fx re_ok g0 c = Ok g -> opens g (intent_of_client c).
+  Proof.
+    intros Hd Hwf H root d Hty He.
+    destruct (handle_flags_inv g0 c g Hwf H) as (m & fl & Hf & _ & _ & _ & Ho & _).
+    unfold spec_excluded, excluded_at, intent_of_client in He. cbn [i_master i_off] in He.
+    repeat (apply orb_false_iff in He; destruct He as [He ?]).
+    rewrite Hf in He. cbn [hd] in He. apply negb_false_iff in He. subst m.
+    unfold open_ok. rewrite Ho, Hd. cbn [andb]. rewrite mem_client_on, mem_types_all.
+    unfold type_ok in Hty. rewrite Hty, andb_true_r.
+    match goal with H0 : client_off _ _ = false |- _ => rewrite H0 end. apply orb_true_r.
+  Qed.
+
   Lemma read_json_inv g0 j g :
-    read_json fixed re_ok g0 j = Ok g ->
+    read_json fx re_ok g0 j = Ok g ->
     g = {| g_json := true; g_show := (j_show j =? 1);
            g_ignore_types := j_ignore_types j; g_open_types := j_open_types j;
            g_handle_folder := filter (fun p => negb (has_lua_suffix p)) (j_ignore_handle j);
            g_handle_file := filter has_lua_suffix (j_ignore_handle j);
            g_err_folder := filter (fun p => negb (has_lua_suffix p)) (j_ignore_err j) ++ [server_meta];
            g_err_file := filter has_lua_suffix (j_ignore_err j);
-           g_file_types := ft_of_list (j_file_types j);
+           g_file_types := ft_of_list (fx_dup fx) (j_file_types j);
            g_has_entry := j_has_entry j; g_var_map := true |}.
   Proof.
     unfold read_json. destruct (_ && _); [|discriminate]. intros H. apply Ok_inj in H. subst g. reflexivity.
   Qed.
 
   Lemma realises_json g0 j g :
-    nodup_keys (j_file_types j) = true -> read_json fixed re_ok g0 j = Ok g -> realises g (intent_of_json j).
+    fx_dup fx || nodup_keys (j_file_types j) = true -> read_json fx re_ok g0 j = Ok g -> realises g (intent_of_json j).
   Proof.
     intros Hnd H. apply read_json_inv in H. subst g. split.
     - intros root d Hty. rewrite visible_unfold.
       unfold spec_excluded, excluded_at, is_ignore_error_file, open_ok, intent_of_json.
       cbn [g_show g_ignore_types g_err_folder g_err_file g_file_types g_open_types i_master i_off i_err i_file_types].
-      rewrite (ft_of_list_nodup _ Hnd).
+      rewrite (ft_of_list_exists (pm (abs_path root (d_file d))) (d_type d) _ _ Hnd).
       rewrite !existsb_app. rewrite (existsb_filter_split (pm (abs_path root (d_file d))) has_lua_suffix (j_ignore_err j)).
       set (f := abs_path root (d_file d)).
       generalize (existsb (fun kv : path * list N => pm f (fst kv) && mem (d_type d) (snd kv)) (j_file_types j)). intros a.
@@ -243,10 +368,35 @@ Section Law.
       generalize (mem (d_type d) (j_open_types j)). intros o.
       generalize (open_required (d_type d)). intros q.
       generalize (j_show j =? 1). intros s.
-      match goal with |- context [gate_ok ?g d] => generalize (gate_ok g d) end. intros x.
-      match goal with |- context [prereq_ok re_ok re_match ?g root d] => generalize (prereq_ok re_ok re_match g root d) end. intros y.
+      match goal with |- context [gate_ok fx ?g d] => generalize (gate_ok fx g d) end. intros x.
+      match goal with |- context [prereq_ok fx re_ok re_match ?g root d] => generalize (prereq_ok fx re_ok re_match g root d) end. intros y.
       btauto.
     - intros rel. reflexivity.
+  Qed.
+
+  Lemma passes_json g0 j g :
+    fx_dup fx || nodup_keys (j_file_types j) = true -> read_json fx re_ok g0 j = Ok g -> passes g (intent_of_json j).
+  Proof.
+    intros Hnd H root d Hty He. apply read_json_inv in H. subst g.
+    unfold spec_excluded, excluded_at, intent_of_json in He. cbn [i_master i_off i_err i_file_types] in He.
+    unfold is_ignore_error_file. cbn [g_show g_ignore_types g_err_folder g_err_file g_file_types].
+    rewrite (ft_of_list_exists (pm (abs_path root (d_file d))) (d_type d) _ _ Hnd).
+    rewrite !existsb_app in *.
+    rewrite (existsb_filter_split (pm (abs_path root (d_file d))) has_lua_suffix (j_ignore_err j)) in He.
+    repeat match goal with H0 : _ || _ = false |- _ => apply orb_false_iff in H0; destruct H0 end.
+    repeat match goal with H0 : _ = false |- _ => rewrite H0; clear H0 end.
+    reflexivity.
+  Qed.
+
+  (* luahelper.json: OpenErrorTypes is part of the intent, whatever the variant of the code *)
+  Lemma opens_json g0 j g : read_json fx re_ok g0 j = Ok g -> opens g (intent_of_json j).
+  Proof.
+    intros H root d Hty He. apply read_json_inv in H. subst g.
+    unfold spec_excluded, excluded_at, intent_of_json in He. cbn [i_master i_off] in He.
+    repeat match goal with H0 : _ || _ = false |- _ => apply orb_false_iff in H0; destruct H0 end.
+    unfold open_ok. cbn [g_open_types].
+    destruct (open_required (d_type d)); cbn [negb orb andb] in *; [|reflexivity].
+    match goal with H0 : negb _ = false |- _ => apply negb_false_iff in H0; exact H0 end.
   Qed.
 End Law.
 
@@ -266,12 +416,12 @@ Proof.
 Qed.
 
 Section Sessions.
-  Variable fixed : bool.
+  Variable fx : fixes.
   Variable re_ok : path -> bool.
   Variable re_match : path -> path -> bool.
 
   Lemma changes_json : forall cs s s',
-    g_json (s_g s) = true -> changes fixed re_ok s cs = Ok s' -> s_g s' = s_g s.
+    g_json (s_g s) = true -> changes fx re_ok s cs = Ok s' -> s_g s' = s_g s.
   Proof.
     induction cs as [|c cs IH]; intros s s' Hj H; cbn [changes] in H.
     - apply Ok_inj in H. subst. reflexivity.
@@ -281,26 +431,26 @@ Section Sessions.
   Qed.
 
   Lemma session_json jc c lr cs s :
-    session fixed re_ok (Some jc) c lr cs = Ok s -> read_json fixed re_ok g_default jc = Ok (s_g s).
+    session fx re_ok (Some jc) c lr cs = Ok s -> read_json fx re_ok g_default jc = Ok (s_g s).
   Proof.
-    unfold session, init. destruct (read_json fixed re_ok g_default jc) as [g| |] eqn:Hr; cbn [rbind]; try discriminate.
-    pose proof (read_json_inv fixed re_ok g_default jc g Hr) as Hg.
+    unfold session, init. destruct (read_json fx re_ok g_default jc) as [g| |] eqn:Hr; cbn [rbind]; try discriminate.
+    pose proof (read_json_inv fx re_ok g_default jc g Hr) as Hg.
     assert (Hvm : g_var_map g = true) by (rewrite Hg; reflexivity).
-    rewrite Hvm. cbn [negb]. rewrite andb_false_r. cbn [rbind].
+    rewrite Hvm. cbn [negb]. rewrite andb_false_r. cbn [andb rbind].
     intros H. apply changes_json in H.
     - cbn [s_g] in H. rewrite H. reflexivity.
     - cbn [s_g]. rewrite Hg. reflexivity.
   Qed.
 
   Definition from_client (g : gconf) (c : client_cfg) : Prop :=
-    exists g0, cinv g0 /\ handle_flags fixed re_ok g0 c = Ok g.
+    exists g0, cinv fx g0 /\ handle_flags fx re_ok g0 c = Ok g.
 
-  Lemma from_client_cinv g c : client_wf c = true -> from_client g c -> cinv g.
-  Proof. intros Hwf (g0 & Hc & H). exact (handle_flags_cinv fixed re_ok g0 c g Hwf Hc H). Qed.
+  Lemma from_client_cinv g c : client_wf c = true -> from_client g c -> cinv fx g.
+  Proof. intros Hwf (g0 & Hc & H). exact (handle_flags_cinv fx re_ok g0 c g Hwf Hc H). Qed.
 
   Lemma changes_client : forall cs s c s',
     s_changed s = true -> client_wf c = true -> forallb client_wf cs = true ->
-    from_client (s_g s) c -> changes fixed re_ok s cs = Ok s' ->
+    from_client (s_g s) c -> changes fx re_ok s cs = Ok s' ->
     from_client (s_g s') (last cs c) /\ client_wf (last cs c) = true.
   Proof.
     induction cs as [|c2 cs IH]; intros s c s' Hch Hwf Hwfs Hfc H; cbn [changes] in H.
@@ -309,7 +459,7 @@ Section Sessions.
       unfold change in H. rewrite Hch in H. cbn [negb] in H.
       destruct (from_client_cinv _ _ Hwf Hfc) as (Hj & _). pose proof (from_client_cinv _ _ Hwf Hfc) as Hci.
       rewrite Hj in H.
-      destruct (handle_flags fixed re_ok (s_g s) c2) as [g'| |] eqn:Hh; cbn [rbind] in H; try discriminate.
+      destruct (handle_flags fx re_ok (s_g s) c2) as [g'| |] eqn:Hh; cbn [rbind] in H; try discriminate.
       rewrite last_cons_default.
       apply (IH _ c2 s') in H; [exact H|reflexivity|exact Hwf2|exact Hwfs|].
       cbn [s_g]. exists (s_g s). auto.
@@ -317,12 +467,12 @@ Section Sessions.
 
   Lemma session_client c lr cs s :
     client_wf c = true -> forallb client_wf cs = true ->
-    session fixed re_ok None c lr cs = Ok s ->
+    session fx re_ok None c lr cs = Ok s ->
     from_client (s_g s) (effective_client c cs) /\ client_wf (effective_client c cs) = true.
   Proof.
     intros Hwf Hwfs. unfold session, init.
-    destruct (handle_flags fixed re_ok g_default c) as [g1| |] eqn:H0; cbn [rbind]; try discriminate.
-    destruct (lr && negb (g_var_map g1) && negb fixed); cbn [rbind]; try discriminate.
+    destruct (handle_flags fx re_ok g_default c) as [g1| |] eqn:H0; cbn [rbind]; try discriminate.
+    destruct (lr && negb (g_var_map g1) && negb (fx_regexp fx)); cbn [rbind]; try discriminate.
     assert (Hfc : from_client g1 c) by (exists g_default; split; [apply cinv_default|exact H0]).
     destruct cs as [|c1 cs]; cbn [changes effective_client].
     - intros H. apply Ok_inj in H. subst. cbn [s_g]. auto.
@@ -332,20 +482,48 @@ Section Sessions.
   Qed.
 
   Theorem session_realises j c lr cs s :
-    json_wf j = true -> client_wf c = true -> forallb client_wf cs = true ->
-    session fixed re_ok j c lr cs = Ok s ->
-    realises re_ok re_match (s_g s) (session_intent j c cs).
+    json_wf fx j = true -> client_wf c = true -> forallb client_wf cs = true ->
+    session fx re_ok j c lr cs = Ok s ->
+    realises fx re_ok re_match (s_g s) (session_intent j c cs).
   Proof.
     intros Hj Hwf Hwfs H. destruct j as [jc|]; unfold session_intent, intent_of.
-    - apply session_json in H. exact (realises_json fixed re_ok re_match g_default jc (s_g s) Hj H).
+    - apply session_json in H. exact (realises_json fx re_ok re_match g_default jc (s_g s) Hj H).
     - destruct (session_client c lr cs s Hwf Hwfs H) as ((g0 & Hc & Hh) & Hwfe).
-      exact (realises_client fixed re_ok re_match g0 _ (s_g s) Hwfe Hc Hh).
+      exact (realises_client fx re_ok re_match g0 _ (s_g s) Hwfe Hc Hh).
   Qed.
+
+  Lemma session_passes j c lr cs s :
+    json_wf fx j = true -> client_wf c = true -> forallb client_wf cs = true ->
+    session fx re_ok j c lr cs = Ok s ->
+    passes re_ok re_match (s_g s) (session_intent j c cs).
+  Proof.
+    intros Hj Hwf Hwfs H. destruct j as [jc|]; unfold session_intent, intent_of.
+    - apply session_json in H. exact (passes_json fx re_ok re_match g_default jc (s_g s) Hj H).
+    - destruct (session_client c lr cs s Hwf Hwfs H) as ((g0 & Hc & Hh) & Hwfe).
+      exact (passes_client fx re_ok re_match g0 _ (s_g s) Hwfe Hc Hh).
+  Qed.
+
+  Lemma session_opens j c lr cs s :
+    fx_dead fx = true -> client_wf c = true -> forallb client_wf cs = true ->
+    session fx re_ok j c lr cs = Ok s ->
+    opens re_ok re_match (s_g s) (session_intent j c cs).
+  Proof.
+    intros Hd Hwf Hwfs H. destruct j as [jc|]; unfold session_intent, intent_of.
+    - apply session_json in H. exact (opens_json fx re_ok re_match g_default jc (s_g s) H).
+    - destruct (session_client c lr cs s Hwf Hwfs H) as ((g0 & Hc & Hh) & Hwfe).
+      exact (opens_client fx re_ok re_match g0 _ (s_g s) Hd Hwfe Hh).
+  Qed.
+
+  (* with luahelper.json the white list is part of the intent in every variant of the code *)
+  Lemma session_opens_json jc c lr cs s :
+    session fx re_ok (Some jc) c lr cs = Ok s ->
+    opens re_ok re_match (s_g s) (session_intent (Some jc) c cs).
+  Proof. intros H. apply session_json in H. exact (opens_json fx re_ok re_match g_default jc (s_g s) H). Qed.
 
   (* pointwise law under the guard *)
   Lemma guarded_visible g i root d :
-    realises re_ok re_match g i -> diag_guard re_ok re_match g i root d = true ->
-    visible re_ok re_match g root d = negb (spec_excluded re_ok re_match i root d).
+    realises fx re_ok re_match g i -> diag_guard fx re_ok re_match g i root d = true ->
+    visible fx re_ok re_match g root d = negb (spec_excluded re_ok re_match i root d).
   Proof.
     intros (Hv & _) Hg. unfold diag_guard in Hg. apply andb_true_iff in Hg as [Hty Hg].
     rewrite (Hv root d Hty).
@@ -353,14 +531,29 @@ Section Sessions.
     rewrite Hg. reflexivity.
   Qed.
 
+  (* the repaired code, one diagnostic at a time: visible = not excluded by the intent. Nothing else. *)
+  Theorem session_visible_exact root j c lr cs s d :
+    gate_covers fx = true -> fx_coupled fx = true -> fx_dead fx = true -> fx_dup fx = true ->
+    client_wf c = true -> forallb client_wf cs = true ->
+    session fx re_ok j c lr cs = Ok s -> type_ok d = true ->
+    visible fx re_ok re_match (s_g s) root d = negb (spec_excluded re_ok re_match (session_intent j c cs) root d).
+  Proof.
+    intros Hg Hc Hd Hu Hwf Hwfs H Hty.
+    assert (Hj : json_wf fx j = true) by (unfold json_wf; rewrite Hu; reflexivity).
+    apply realises_exact; try assumption.
+    - exact (session_realises j c lr cs s Hj Hwf Hwfs H).
+    - exact (session_passes j c lr cs s Hj Hwf Hwfs H).
+    - exact (session_opens j c lr cs s Hd Hwf Hwfs H).
+  Qed.
+
   Variable raw : list path -> list diag.
 
-  Theorem filter_law root files j c lr cs s :
-    json_wf j = true -> client_wf c = true -> forallb client_wf cs = true ->
-    session fixed re_ok j c lr cs = Ok s ->
-    forallb (diag_guard re_ok re_match (s_g s) (session_intent j c cs) root)
+  Theorem filter_law_guarded root files j c lr cs s :
+    json_wf fx j = true -> client_wf c = true -> forallb client_wf cs = true ->
+    session fx re_ok j c lr cs = Ok s ->
+    forallb (diag_guard fx re_ok re_match (s_g s) (session_intent j c cs) root)
             (raw (filter (is_handled re_ok re_match (s_g s)) files)) = true ->
-    shown re_ok re_match raw (s_g s) root files
+    shown fx re_ok re_match raw (s_g s) root files
       = spec_shown re_ok re_match raw (session_intent j c cs) root files.
   Proof.
     intros Hj Hwf Hwfs H Hg.
@@ -373,12 +566,34 @@ Section Sessions.
     rewrite forallb_forall in Hg. apply guarded_visible; [exact Hr|apply Hg; exact Hin].
   Qed.
 
+  (* the filter law of the repaired code: no guard on the configuration; the only premise is that the analysis reports
+     diagnostics of the existing types 1..29 *)
+  Theorem filter_law root files j c lr cs s :
+    gate_covers fx = true -> fx_coupled fx = true -> fx_dead fx = true -> fx_dup fx = true ->
+    client_wf c = true -> forallb client_wf cs = true ->
+    session fx re_ok j c lr cs = Ok s ->
+    forallb type_ok (raw (filter (spec_handled re_ok re_match (session_intent j c cs)) files)) = true ->
+    shown fx re_ok re_match raw (s_g s) root files
+      = spec_shown re_ok re_match raw (session_intent j c cs) root files.
+  Proof.
+    intros Hg Hc Hd Hu Hwf Hwfs H Hty.
+    assert (Hj : json_wf fx j = true) by (unfold json_wf; rewrite Hu; reflexivity).
+    pose proof (session_realises j c lr cs s Hj Hwf Hwfs H) as Hr.
+    unfold shown, spec_shown.
+    assert (Hf : filter (is_handled re_ok re_match (s_g s)) files
+                 = filter (spec_handled re_ok re_match (session_intent j c cs)) files).
+    { apply filter_ext. intros rel. apply (proj2 Hr). }
+    rewrite Hf. apply filter_ext_in. intros d Hin.
+    rewrite forallb_forall in Hty.
+    apply (session_visible_exact root j c lr cs s d); try assumption. apply Hty. exact Hin.
+  Qed.
+
   (* and whatever the guard says: what is shown is always a subset of what the intent allows, except for the
      replaced duplicate rule (json_wf) - the code never shows a diagnostic the configuration excludes *)
   Theorem never_shows_excluded root j c lr cs s d :
-    json_wf j = true -> client_wf c = true -> forallb client_wf cs = true ->
-    session fixed re_ok j c lr cs = Ok s -> type_ok d = true ->
-    visible re_ok re_match (s_g s) root d = true ->
+    json_wf fx j = true -> client_wf c = true -> forallb client_wf cs = true ->
+    session fx re_ok j c lr cs = Ok s -> type_ok d = true ->
+    visible fx re_ok re_match (s_g s) root d = true ->
     spec_excluded re_ok re_match (session_intent j c cs) root d = false.
   Proof.
     intros Hj Hwf Hwfs H Hty Hv.
@@ -386,27 +601,47 @@ Section Sessions.
     rewrite (Hr root d Hty) in Hv.
     destruct (spec_excluded re_ok re_match (session_intent j c cs) root d); [discriminate|reflexivity].
   Qed.
+
+  (* the class predicates of the four repaired defects are empty on the repaired code *)
+  Lemma classes_empty root j c lr cs s d :
+    gate_covers fx = true -> fx_coupled fx = true -> fx_dead fx = true -> fx_dup fx = true ->
+    client_wf c = true -> forallb client_wf cs = true ->
+    session fx re_ok j c lr cs = Ok s -> type_ok d = true ->
+    cls_special_gate fx re_ok re_match (s_g s) (session_intent j c cs) root d = false
+    /\ cls_coupled fx re_ok re_match (s_g s) (session_intent j c cs) root d = false
+    /\ cls_dead_flag re_ok re_match (s_g s) (session_intent j c cs) root d = false
+    /\ json_wf fx j = true.
+  Proof.
+    intros Hg Hc Hd Hu Hwf Hwfs H Hty.
+    assert (Hj : json_wf fx j = true) by (unfold json_wf; rewrite Hu; reflexivity).
+    unfold cls_special_gate, cls_coupled, cls_dead_flag.
+    destruct (spec_excluded re_ok re_match (session_intent j c cs) root d) eqn:He; cbn [negb andb]; [auto|].
+    pose proof (session_passes j c lr cs s Hj Hwf Hwfs H root d Hty He) as Hp.
+    destruct (not_ignored_live _ _ _ _ _ Hp) as [Hs Hn].
+    rewrite (gate_ok_fixed fx (s_g s) d Hg Hs Hn), (prereq_ok_fixed fx re_ok re_match (s_g s) root d Hc).
+    rewrite (session_opens j c lr cs s Hd Hwf Hwfs H root d Hty He). auto.
+  Qed.
 End Sessions.
 
 (* ---------- the three delivery routes ---------- *)
 
 Section Routes.
-  Variable fixed : bool.
+  Variable fx : fixes.
   Variable re_ok : path -> bool.
   Variable re_match : path -> path -> bool.
 
   Definition obs_eq (g1 g2 : gconf) : Prop :=
-    (forall root d, visible re_ok re_match g1 root d = visible re_ok re_match g2 root d)
+    (forall root d, visible fx re_ok re_match g1 root d = visible fx re_ok re_match g2 root d)
     /\ (forall rel, is_handled re_ok re_match g1 rel = is_handled re_ok re_match g2 rel).
 
-  Lemma visible_hidden g root d : g_show g = false -> visible re_ok re_match g root d = false.
+  Lemma visible_hidden g root d : g_show g = false -> visible fx re_ok re_match g root d = false.
   Proof. intros H. unfold visible, is_ignore_error_file. rewrite H. reflexivity. Qed.
 
   Lemma visible_fields g1 g2 root d :
     g_show g1 = g_show g2 -> g_ignore_types g1 = g_ignore_types g2 -> g_open_types g1 = g_open_types g2 ->
     g_err_folder g1 = g_err_folder g2 -> g_err_file g1 = g_err_file g2 -> g_file_types g1 = g_file_types g2 ->
     g_has_entry g1 = g_has_entry g2 ->
-    visible re_ok re_match g1 root d = visible re_ok re_match g2 root d.
+    visible fx re_ok re_match g1 root d = visible fx re_ok re_match g2 root d.
   Proof.
     intros H1 H2 H3 H4 H5 H6 H7.
     unfold visible, is_ignore_error_file, pass_runs, cross_runs, special_check.
@@ -420,59 +655,74 @@ Section Routes.
     intros H1 H2. unfold is_handled, ignore_folder, ignore_file. rewrite H1, H2. reflexivity.
   Qed.
 
-  Lemma from_client_obs g1 g2 c :
-    client_wf c = true -> from_client fixed re_ok g1 c -> from_client fixed re_ok g2 c -> obs_eq g1 g2.
+  (* the white list after a client configuration with the master switch on *)
+  Lemma client_open_types a g c fl :
+    cinv fx a -> c_flags c = true :: fl -> hf_fields fx a g c true ->
+    g_open_types g = if fx_dead fx then client_on_types (c_flags c) else [].
   Proof.
-    intros Hwf (a & (_ & Hfta & Hoa & Hea) & Ha) (b & (_ & Hftb & Hob & Heb) & Hb).
-    destruct (handle_flags_inv fixed re_ok a c g1 Hwf Ha) as (m & fl & Hf & _ & Hs1 & Hi1 & Ho1 & Hhf1 & Hhl1 & Hef1 & Hel1 & Hft1 & He1).
-    destruct (handle_flags_inv fixed re_ok b c g2 Hwf Hb) as (m' & fl' & Hf' & _ & Hs2 & Hi2 & Ho2 & Hhf2 & Hhl2 & Hef2 & Hel2 & Hft2 & He2).
+    intros (_ & _ & Ho & _) Hf (_ & _ & _ & Hog & _). rewrite Hog. cbn [andb].
+    destruct (fx_dead fx); [reflexivity|apply Ho; reflexivity].
+  Qed.
+
+  Lemma from_client_obs g1 g2 c :
+    client_wf c = true -> from_client fx re_ok g1 c -> from_client fx re_ok g2 c -> obs_eq g1 g2.
+  Proof.
+    intros Hwf (a & Hca & Ha) (b & Hcb & Hb).
+    destruct (handle_flags_inv fx re_ok a c g1 Hwf Ha) as (m & fl & Hf & Hall1).
+    destruct (handle_flags_inv fx re_ok b c g2 Hwf Hb) as (m' & fl' & Hf' & Hall2).
     rewrite Hf in Hf'. injection Hf' as <- <-.
+    pose proof Hall1 as (_ & Hs1 & Hi1 & _ & Hhf1 & Hhl1 & Hef1 & Hel1 & Hft1 & He1).
+    pose proof Hall2 as (_ & Hs2 & Hi2 & _ & Hhf2 & Hhl2 & Hef2 & Hel2 & Hft2 & He2).
+    pose proof Hca as (_ & Hfta & _ & Hea). pose proof Hcb as (_ & Hftb & _ & Heb).
     split.
     - intros root d. destruct m.
-      + apply visible_fields; congruence.
+      + apply visible_fields; try congruence.
+        rewrite (client_open_types a g1 c fl Hca Hf Hall1), (client_open_types b g2 c fl Hcb Hf Hall2). reflexivity.
       + rewrite !visible_hidden by assumption. reflexivity.
     - intros rel. apply is_handled_fields; congruence.
   Qed.
 
   Lemma from_client_json_obs g1 g3 c :
-    client_wf c = true -> from_client fixed re_ok g1 c ->
-    read_json fixed re_ok g_default (to_json c) = Ok g3 -> obs_eq g1 g3.
+    client_wf c = true -> from_client fx re_ok g1 c ->
+    read_json fx re_ok g_default (to_json fx c) = Ok g3 -> obs_eq g1 g3.
   Proof.
-    intros Hwf (a & (_ & Hfta & Hoa & Hea) & Ha) H3.
-    destruct (handle_flags_inv fixed re_ok a c g1 Hwf Ha) as (m & fl & Hf & _ & Hs1 & Hi1 & Ho1 & Hhf1 & Hhl1 & Hef1 & Hel1 & Hft1 & He1).
-    apply read_json_inv in H3. subst g3. unfold to_json. rewrite Hf.
+    intros Hwf (a & Hca & Ha) H3.
+    destruct (handle_flags_inv fx re_ok a c g1 Hwf Ha) as (m & fl & Hf & Hall1).
+    pose proof Hall1 as (_ & Hs1 & Hi1 & _ & Hhf1 & Hhl1 & Hef1 & Hel1 & Hft1 & He1).
+    pose proof Hca as (_ & Hfta & _ & Hea).
+    apply read_json_inv in H3. subst g3.
     split.
     - intros root d. destruct m.
       + apply visible_fields;
-          cbn [g_show g_ignore_types g_open_types g_err_folder g_err_file g_file_types g_has_entry
+          cbn [g_show g_ignore_types g_open_types g_err_folder g_err_file g_file_types g_has_entry to_json
                j_show j_ignore_types j_open_types j_ignore_err j_file_types j_has_entry].
-        * rewrite Hs1. reflexivity.
-        * rewrite Hi1, Hf. reflexivity.
-        * congruence.
+        * rewrite Hs1, Hf. reflexivity.
+        * rewrite Hi1. reflexivity.
+        * exact (client_open_types a g1 c fl Hca Hf Hall1).
         * exact Hef1.
         * exact Hel1.
-        * rewrite Hft1, Hfta. reflexivity.
+        * rewrite Hft1, Hfta. destruct (fx_dup fx); reflexivity.
         * congruence.
       + rewrite !visible_hidden; [reflexivity| |assumption].
-        cbn [g_show j_show]. reflexivity.
+        cbn [g_show j_show to_json]. rewrite Hf. reflexivity.
     - intros rel. apply is_handled_fields;
-        cbn [g_handle_folder g_handle_file j_ignore_handle]; congruence.
+        cbn [g_handle_folder g_handle_file j_ignore_handle to_json]; congruence.
   Qed.
 
   (* the same client configuration c delivered (1) as initializationOptions, (2) by a later settings change after an
      arbitrary earlier history, (3) as the equivalent luahelper.json (whatever the client then sends) *)
   Theorem same_by_all_routes c c0 csync cmid cany cs_any l1 l2 l3 s1 s2 s3 :
     client_wf c = true -> client_wf c0 = true -> client_wf csync = true -> forallb client_wf cmid = true ->
-    session fixed re_ok None c l1 [] = Ok s1 ->
-    session fixed re_ok None c0 l2 (csync :: cmid ++ [c]) = Ok s2 ->
-    session fixed re_ok (Some (to_json c)) cany l3 cs_any = Ok s3 ->
+    session fx re_ok None c l1 [] = Ok s1 ->
+    session fx re_ok None c0 l2 (csync :: cmid ++ [c]) = Ok s2 ->
+    session fx re_ok (Some (to_json fx c)) cany l3 cs_any = Ok s3 ->
     obs_eq (s_g s1) (s_g s2) /\ obs_eq (s_g s1) (s_g s3).
   Proof.
     intros Hwf Hwf0 Hwfs Hwfm H1 H2 H3.
-    destruct (session_client fixed re_ok c l1 [] s1 Hwf eq_refl H1) as (F1 & _). cbn [effective_client] in F1.
+    destruct (session_client fx re_ok c l1 [] s1 Hwf eq_refl H1) as (F1 & _). cbn [effective_client] in F1.
     assert (Hall : forallb client_wf (csync :: cmid ++ [c]) = true).
     { cbn [forallb]. rewrite Hwfs. rewrite forallb_app. rewrite Hwfm. cbn [forallb]. rewrite Hwf. reflexivity. }
-    destruct (session_client fixed re_ok c0 l2 _ s2 Hwf0 Hall H2) as (F2 & _).
+    destruct (session_client fx re_ok c0 l2 _ s2 Hwf0 Hall H2) as (F2 & _).
     cbn [effective_client] in F2. rewrite last_last in F2.
     split.
     - exact (from_client_obs (s_g s1) (s_g s2) c Hwf F1 F2).
@@ -481,7 +731,7 @@ Section Routes.
 
   (* observationally equal states show the same diagnostics, whatever the analysis produces *)
   Lemma obs_eq_shown raw g1 g2 root files :
-    obs_eq g1 g2 -> shown re_ok re_match raw g1 root files = shown re_ok re_match raw g2 root files.
+    obs_eq g1 g2 -> shown fx re_ok re_match raw g1 root files = shown fx re_ok re_match raw g2 root files.
   Proof.
     intros (Hv & Hh). unfold shown.
     rewrite (filter_ext _ _ Hh). apply filter_ext. intros d. apply Hv.
@@ -489,7 +739,7 @@ Section Routes.
 
   (* luahelper.json present: nothing the client sends changes the outcome *)
   Theorem json_ignores_client jc c c' l l' cs cs' s s' :
-    session fixed re_ok (Some jc) c l cs = Ok s -> session fixed re_ok (Some jc) c' l' cs' = Ok s' -> s_g s = s_g s'.
+    session fx re_ok (Some jc) c l cs = Ok s -> session fx re_ok (Some jc) c' l' cs' = Ok s' -> s_g s = s_g s'.
   Proof.
     intros H H'. apply session_json in H. apply session_json in H'. rewrite H in H'. apply Ok_inj in H'. exact H'.
   Qed.
@@ -500,73 +750,76 @@ End Routes.
 Section Faults.
   Variable re_ok : path -> bool.
 
-  Lemma handle_flags_ok_ex fixed g c :
-    compile_all fixed re_ok (c_ignore_err c) = true ->
-    exists g', handle_flags fixed re_ok g c = Ok g' /\ (hd false (c_flags c) = true -> g_var_map g' = true).
+  Lemma handle_flags_ok_ex fx g c :
+    compile_all fx re_ok (c_ignore_err c) = true ->
+    exists g', handle_flags fx re_ok g c = Ok g' /\ (hd false (c_flags c) = true -> g_var_map g' = true).
   Proof.
     intros H. unfold handle_flags. rewrite H.
     destruct (c_flags c) as [|m fl]; [eexists; split; [reflexivity|cbn [hd]; discriminate]|].
     destruct m; eexists; (split; [reflexivity|cbn [hd g_var_map]; congruence]).
   Qed.
 
-  Lemma changes_ok_ex fixed : forall cs s,
-    forallb (fun c => compile_all fixed re_ok (c_ignore_err c)) cs = true ->
-    exists s', changes fixed re_ok s cs = Ok s'.
+  Lemma changes_ok_ex fx : forall cs s,
+    forallb (fun c => compile_all fx re_ok (c_ignore_err c)) cs = true ->
+    exists s', changes fx re_ok s cs = Ok s'.
   Proof.
     induction cs as [|c cs IH]; intros s H; cbn [changes].
     - eexists; reflexivity.
     - cbn [forallb] in H. apply andb_true_iff in H as [Hc H].
       unfold change. destruct (negb (s_changed s)); cbn [rbind]; [apply IH; exact H|].
       destruct (g_json (s_g s)); cbn [rbind]; [apply IH; exact H|].
-      destruct (handle_flags_ok_ex fixed (s_g s) c Hc) as (g' & Hg & _). rewrite Hg. cbn [rbind]. apply IH; exact H.
+      destruct (handle_flags_ok_ex fx (s_g s) c Hc) as (g' & Hg & _). rewrite Hg. cbn [rbind]. apply IH; exact H.
   Qed.
 
-  Definition session_patterns_ok (fixed : bool) (j : option json_cfg) (c : client_cfg) (cs : list client_cfg) : bool :=
+  Definition session_patterns_ok (fx : fixes) (j : option json_cfg) (c : client_cfg) (cs : list client_cfg) : bool :=
     match j with
-    | Some jc => compile_all fixed re_ok (map fst (j_file_types jc)) && compile_all fixed re_ok (j_ignore_err jc)
-    | None => compile_all fixed re_ok (c_ignore_err c)
-    end && forallb (fun c => compile_all fixed re_ok (c_ignore_err c)) cs.
+    | Some jc => compile_all fx re_ok (map fst (j_file_types jc)) && compile_all fx re_ok (j_ignore_err jc)
+    | None => compile_all fx re_ok (c_ignore_err c)
+    end && forallb (fun c => compile_all fx re_ok (c_ignore_err c)) cs.
 
   (* LocalRun is harmless with luahelper.json or with the master switch on *)
   Definition local_ok (j : option json_cfg) (c : client_cfg) (lr : bool) : bool :=
     negb lr || match j with Some _ => true | None => hd false (c_flags c) end.
 
-  Theorem session_no_fault fixed j c lr cs :
-    session_patterns_ok fixed j c cs = true -> fixed || local_ok j c lr = true ->
-    exists s, session fixed re_ok j c lr cs = Ok s.
+  Theorem session_no_fault fx j c lr cs :
+    session_patterns_ok fx j c cs = true -> fx_regexp fx || local_ok j c lr = true ->
+    exists s, session fx re_ok j c lr cs = Ok s.
   Proof.
     unfold session_patterns_ok, local_ok. intros H Hl. apply andb_true_iff in H as [H0 Hcs].
     unfold session, init. destruct j as [jc|].
     - unfold read_json. rewrite H0. cbn [rbind g_var_map negb]. rewrite andb_false_r. cbn [andb rbind].
       apply changes_ok_ex. exact Hcs.
-    - destruct (handle_flags_ok_ex fixed g_default c H0) as (g' & Hg & Hvm). rewrite Hg. cbn [rbind].
-      assert (Hz : lr && negb (g_var_map g') && negb fixed = false).
-      { destruct fixed; [rewrite andb_false_r; reflexivity|]. cbn [orb] in Hl.
+    - destruct (handle_flags_ok_ex fx g_default c H0) as (g' & Hg & Hvm). rewrite Hg. cbn [rbind].
+      assert (Hz : lr && negb (g_var_map g') && negb (fx_regexp fx) = false).
+      { destruct (fx_regexp fx); [rewrite andb_false_r; reflexivity|]. cbn [orb] in Hl.
         destruct lr; [|reflexivity]. cbn [negb orb] in Hl. rewrite (Hvm Hl). reflexivity. }
       rewrite Hz. cbn [rbind]. apply changes_ok_ex. exact Hcs.
   Qed.
 
-  (* the repaired code (both fix: commits) never faults, whatever the settings *)
-  Theorem fixed_never_faults j c lr cs :
-    exists s, session true re_ok j c lr cs = Ok s.
+  (* the repaired code (the two fix: commits of round 1) never faults, whatever the settings *)
+  Theorem fixed_never_faults fx j c lr cs :
+    fx_regexp fx = true -> exists s, session fx re_ok j c lr cs = Ok s.
   Proof.
-    apply session_no_fault; [|reflexivity]. unfold session_patterns_ok, compile_all. cbn [orb].
+    intros Hfx. apply session_no_fault; [|rewrite Hfx; reflexivity]. unfold session_patterns_ok, compile_all.
+    rewrite Hfx. cbn [orb].
     destruct j; cbn [andb]; induction cs; cbn [forallb andb]; auto.
   Qed.
 
   (* before the repair: LocalRun with the master switch off: initialize writes into the nil map IgnoreVarMap *)
-  Theorem local_master_off_faults c fl :
-    c_flags c = false :: fl -> compile_all false re_ok (c_ignore_err c) = true ->
-    init false re_ok None c true = Fault NilDeref.
+  Theorem local_master_off_faults fx c fl :
+    fx_regexp fx = false ->
+    c_flags c = false :: fl -> compile_all fx re_ok (c_ignore_err c) = true ->
+    init fx re_ok None c true = Fault NilDeref.
   Proof.
-    intros Hf Hc. unfold init, handle_flags. rewrite Hc, Hf. cbn [rbind g_var_map g_default andb negb]. reflexivity.
+    intros Hfx Hf Hc. unfold init, handle_flags. rewrite Hc, Hf, Hfx. cbn [rbind g_var_map g_default andb negb]. reflexivity.
   Qed.
 
-  (* the code as it is: a pattern that does not compile in IgnoreFileOrDirError kills initialize *)
-  Theorem init_faults_iff c lr :
-    init false re_ok None c lr = Fault Regexp <-> forallb re_ok (c_ignore_err c) = false.
+  (* the code before the repair: a pattern that does not compile in IgnoreFileOrDirError kills initialize *)
+  Theorem init_faults_iff fx c lr :
+    fx_regexp fx = false ->
+    (init fx re_ok None c lr = Fault Regexp <-> forallb re_ok (c_ignore_err c) = false).
   Proof.
-    unfold init, handle_flags, compile_all. cbn [orb].
+    intros Hfx. unfold init, handle_flags, compile_all. rewrite Hfx. cbn [orb].
     destruct (forallb re_ok (c_ignore_err c)); cbn [rbind].
     - split; [|discriminate].
       destruct (c_flags c) as [|m fl]; [|destruct m]; cbn [rbind];
@@ -574,15 +827,18 @@ Section Faults.
     - split; reflexivity.
   Qed.
 
-  (* where no pattern is malformed the repair changes nothing *)
-  Lemma handle_flags_fixed_same g c :
-    forallb re_ok (c_ignore_err c) = true -> handle_flags false re_ok g c = handle_flags true re_ok g c.
-  Proof. intros H. unfold handle_flags, compile_all. rewrite H. reflexivity. Qed.
+  (* where no pattern is malformed the regexp repair changes nothing *)
+  Lemma handle_flags_fixed_same a b d e g c :
+    forallb re_ok (c_ignore_err c) = true ->
+    handle_flags {| fx_regexp := false; fx_gate := a; fx_coupled := b; fx_dead := d; fx_dup := e |} re_ok g c
+    = handle_flags {| fx_regexp := true; fx_gate := a; fx_coupled := b; fx_dead := d; fx_dup := e |} re_ok g c.
+  Proof. intros H. unfold handle_flags, compile_all. cbn [fx_regexp fx_dead]. rewrite H. reflexivity. Qed.
 End Faults.
 
-(* ---------- configuration-level sufficient conditions for the guard ---------- *)
+(* ---------- configuration-level sufficient conditions for the guard (code before the repairs) ---------- *)
 
 Section Simple.
+  Variable fx : fixes.
   Variable re_ok : path -> bool.
   Variable re_match : path -> path -> bool.
 
@@ -592,37 +848,57 @@ Section Simple.
     && match d_ref d with None => true | Some _ => false end.
 
   Lemma plain_guard g i root d :
-    special_gate_ok g = true -> plain_diag d = true -> diag_guard re_ok re_match g i root d = true.
+    special_gate_ok fx g = true -> plain_diag d = true -> diag_guard fx re_ok re_match g i root d = true.
   Proof.
     unfold special_gate_ok, plain_diag, diag_guard, gate_ok, prereq_ok, open_ok, pass_runs.
     intros Hg H. apply andb_true_iff in H as [H Hr]. apply andb_true_iff in H as [H Ho].
     apply andb_true_iff in H as [Hty Hp]. rewrite Hty, Ho. cbn [andb orb].
-    assert (Hpre : global_prereq (d_type d) = []).
-    { unfold global_prereq. unfold mem in Hp. cbn [existsb] in Hp.
+    assert (Hpre : prereq_types fx (d_type d) = []).
+    { unfold prereq_types, global_prereq. unfold mem in Hp. cbn [existsb] in Hp. destruct (fx_coupled fx); [reflexivity|].
       destruct (d_type d =? 17); [discriminate|]. destruct (d_type d =? 24); [discriminate|]. reflexivity. }
-    rewrite Hpre. cbn [forallb]. destruct (d_ref d); [discriminate|].
+    rewrite Hpre. cbn [forallb]. destruct (d_ref d); [discriminate|]. rewrite orb_true_r.
     rewrite Hg. destruct (produced_in (d_type d)); rewrite orb_true_r; reflexivity.
   Qed.
 End Simple.
 
 Section Plain.
-  Variable fixed : bool.
+  Variable fx : fixes.
   Variable re_ok : path -> bool.
   Variable re_match : path -> path -> bool.
   Variable raw : list path -> list diag.
 
   Theorem filter_law_plain root files j c lr cs s :
-    json_wf j = true -> client_wf c = true -> forallb client_wf cs = true ->
-    session fixed re_ok j c lr cs = Ok s ->
-    special_gate_ok (s_g s) = true ->
+    json_wf fx j = true -> client_wf c = true -> forallb client_wf cs = true ->
+    session fx re_ok j c lr cs = Ok s ->
+    special_gate_ok fx (s_g s) = true ->
     forallb plain_diag (raw (filter (is_handled re_ok re_match (s_g s)) files)) = true ->
-    shown re_ok re_match raw (s_g s) root files
+    shown fx re_ok re_match raw (s_g s) root files
       = spec_shown re_ok re_match raw (session_intent j c cs) root files.
   Proof.
-    intros Hj Hwf Hwfs H Hg Hp. apply (filter_law fixed _ _ _ _ _ _ _ lr); try assumption.
+    intros Hj Hwf Hwfs H Hg Hp. apply (filter_law_guarded fx _ _ _ _ _ _ _ lr); try assumption.
     rewrite forallb_forall in *. intros d Hin. apply plain_guard; [exact Hg|apply Hp; exact Hin].
   Qed.
 End Plain.
+
+(* ---------- the full statement, for one variant of the code ---------- *)
+
+(* for every configuration, by every route, the server survives and shows exactly what the intent allows
+   (raw = the analysis with every check enabled: arbitrary, as long as it reports diagnostics of the types 1..29) *)
+Definition full_for (fx : fixes) : Prop :=
+  forall (re_ok : path -> bool) (re_match : path -> path -> bool) (raw : list path -> list diag)
+         root files j c local_run cs,
+    client_wf c = true -> forallb client_wf cs = true ->
+    forallb type_ok (raw (filter (spec_handled re_ok re_match (session_intent j c cs)) files)) = true ->
+    exists s, session fx re_ok j c local_run cs = Ok s
+      /\ shown fx re_ok re_match raw (s_g s) root files = spec_shown re_ok re_match raw (session_intent j c cs) root files.
+
+Theorem full_deployed : full_for deployed.
+Proof.
+  intros re_ok re_match raw root files j c lr cs Hwf Hwfs Hty.
+  destruct (fixed_never_faults re_ok deployed j c lr cs eq_refl) as (s & Hs).
+  exists s. split; [exact Hs|].
+  apply (filter_law deployed re_ok re_match raw root files j c lr cs s); auto.
+Qed.
 
 (* ---------- witnesses (closed terms, evaluated in Properties/C17.v) ---------- *)
 
@@ -635,12 +911,18 @@ Definition flags_off (off : list N) : list bool := map (fun k => negb (mem k off
 Definition mk_client (off : list N) (ih ie : list path) : client_cfg :=
   {| c_flags := flags_off off; c_ignore_handle := ih; c_ignore_err := ie |}.
 Definition a_lua : path := [97; 46; 108; 117; 97].
+Definition b_lua : path := [98; 46; 108; 117; 97].
 Definition mk_diag (f : path) (t : N) : diag := {| d_file := f; d_type := t; d_line := 0; d_col := 0; d_ref := None |}.
+(* a type-11 diagnostic of a.lua about a member of the imported b.lua *)
+Definition mk_ref_diag : diag := {| d_file := a_lua; d_type := 11; d_line := 0; d_col := 0; d_ref := Some b_lua |}.
 
 (* 2, 3, 10, 11, 12 off, everything else (9 included) on *)
 Definition w_gate : client_cfg := mk_client special_types [] [].
 (* only "local variable not used" (4) off *)
 Definition w_coupled : client_cfg := mk_client [4] [] [].
+(* only "undefined variable" (2) off; all diagnostics of b.lua silenced *)
+Definition w_coupled_ref : client_cfg := mk_client [2] [] [].
+Definition w_coupled_ref_file : client_cfg := mk_client [] [] [b_lua].
 Definition w_all_on : client_cfg := mk_client [] [] [].
 Definition w_bad_regex : client_cfg := mk_client [] [] [[40]].
 (* master switch off (and the client says LocalRun) *)
@@ -655,3 +937,12 @@ Definition x_lua : path := [120; 46; 108; 117; 97].
 Definition w_example : client_cfg := mk_client [4; 9] [x_lua] [sub_dir].
 Definition w_example_diags : list diag :=
   [mk_diag a_lua 1; mk_diag a_lua 2; mk_diag a_lua 4; mk_diag a_lua 9; mk_diag (sub_dir ++ a_lua) 2; mk_diag a_lua 13].
+
+(* the full statement was false before the four repairs of round 2: switches 2, 3, 10, 11, 12 off, a type-9 diagnostic *)
+Theorem full_round1_refuted : ~ full_for code_round1.
+Proof.
+  intros H.
+  destruct (H re_all re_none (fun _ => [mk_diag a_lua 9]) [] [a_lua] None w_gate false [] eq_refl eq_refl eq_refl)
+    as (s & Hs & Heq).
+  vm_compute in Hs. apply Ok_inj in Hs. subst s. vm_compute in Heq. discriminate.
+Qed.
